@@ -77,7 +77,8 @@ func raceOracle(cfg *vh.Config, res *vh.Result, rounds int, caseBase int) (int, 
 		if err := cmd.Start(); err != nil {
 			return 0, err
 		}
-		timer := time.AfterFunc(time.Duration(60+rounds/5)*time.Second, func() { _ = cmd.Process.Kill() })
+		// a real hang is reported by the worker's own watchdog within seconds; this is the backstop for a machine under heavy load
+		timer := time.AfterFunc(time.Duration(240+rounds/2)*time.Second, func() { _ = cmd.Process.Kill() })
 		last, ended, hung := start, false, false
 		sc := bufio.NewScanner(stdout)
 		sc.Buffer(make([]byte, 1<<20), 1<<24)
